@@ -242,6 +242,7 @@ func (s *Sched) RunWith(t T, choose func(runnable []*writer) *writer) bool {
 		w.state = wsYield
 	}
 	steps := 0
+	deadlocksBefore := s.w.Env.Sim.Deadlocks()
 	var last *writer
 	for {
 		var runnable []*writer
@@ -299,7 +300,21 @@ func (s *Sched) RunWith(t T, choose func(runnable []*writer) *writer) bool {
 		s.mu.Unlock()
 		steps++
 		if steps > 20000 {
-			stats.HarnessError(t, "schedule exceeded 20000 steps")
+			tail := s.Trace
+			if len(tail) > 40 {
+				tail = tail[len(tail)-40:]
+			}
+			if n := s.w.Env.Sim.Deadlocks() - deadlocksBefore; n >= 100 {
+				// the requests are alive but go round in circles: each retry of the code under test deadlocks again
+				code := "C06"
+				for c := range s.w.Focus {
+					code = c
+				}
+				s.abortAll()
+				s.w.V(code, "the requests never complete: %d deadlocks were detected and retried over 20000 scheduling steps (a livelock of the retry path)\nlast statements:\n  %s", n, strings.Join(tail, "\n  "))
+				return false
+			}
+			stats.HarnessError(t, "schedule exceeded 20000 steps; last statements:\n  %s", strings.Join(tail, "\n  "))
 			return false
 		}
 	}
